@@ -155,8 +155,8 @@ func c17Order(r *vres.Report, maxLen int) {
 	}
 	rec()
 	r.AddScenario(vres.Scenario{Name: "chain-order-and-gating", Engine: "W", Evaluations: evals, Distinct: int64(outs.N()), Outcomes: outs.N(),
-		Rule:       "every sequence of built-in plugins up to the length, tracing probes at every position, three requests each (accepted, rejected by custom-auth, rejected by size_limit); distinct = (length, request, rejected, status) classes",
-		Bound:      fmt.Sprintf("all %d-ary sequences of length <= %d (this shard: %d chains)", len(c17Names), maxLen, chains), Exhaustive: true, Sample: sample,
+		Rule:  "every sequence of built-in plugins up to the length, tracing probes at every position, three requests each (accepted, rejected by custom-auth, rejected by size_limit); distinct = (length, request, rejected, status) classes",
+		Bound: fmt.Sprintf("all %d-ary sequences of length <= %d (this shard: %d chains)", len(c17Names), maxLen, chains), Exhaustive: true, Sample: sample,
 		Extra: map[string]interface{}{"wall_s": time.Since(start).Seconds()}})
 }
 
@@ -265,8 +265,8 @@ func c17FailClosed(r *vres.Report, maxLen int) {
 		}
 	}
 	r.AddScenario(vres.Scenario{Name: "fail-closed-construction", Engine: "W", Evaluations: evals, Distinct: int64(outs.N()), Outcomes: outs.N(),
-		Rule:       fmt.Sprintf("each of %d invalid plugin entries (unknown / empty / misspelt name; missing, wrong-typed, zero, negative, out-of-range options) at every position of every chain of up to %d valid plugins; BuildChain (and buildHandler for contexts <= 1) must return an error", len(bad), maxLen-1),
-		Bound:      "full product", Exhaustive: true, Sample: map[string]interface{}{"invalid_entry": bad[5].label, "config": bad[5].pc.Config},
+		Rule:  fmt.Sprintf("each of %d invalid plugin entries (unknown / empty / misspelt name; missing, wrong-typed, zero, negative, out-of-range options) at every position of every chain of up to %d valid plugins; BuildChain (and buildHandler for contexts <= 1) must return an error", len(bad), maxLen-1),
+		Bound: "full product", Exhaustive: true, Sample: map[string]interface{}{"invalid_entry": bad[5].label, "config": bad[5].pc.Config},
 		Extra: map[string]interface{}{"wall_s": time.Since(start).Seconds()}})
 }
 
@@ -295,11 +295,11 @@ func c17Binary(t *testing.T, r *vres.Report) {
 	be := wire.NewBackend("b0")
 	defer be.Close()
 	chains := map[string]string{
-		"unknown-plugin":       "    - name: no-such-plugin\n",
-		"gzip-level-string":    "    - name: gzip\n      config:\n        level: \"fast\"\n        min_size: 64\n        content_types: [\"text/\"]\n",
-		"size_limit-negative":  "    - name: logging\n    - name: size_limit\n      config:\n        max_request_body: -1\n",
-		"custom-auth-no-key":   "    - name: custom-auth\n",
-		"headers-scalar":       "    - name: headers\n      config:\n        set: nope\n",
+		"unknown-plugin":      "    - name: no-such-plugin\n",
+		"gzip-level-string":   "    - name: gzip\n      config:\n        level: \"fast\"\n        min_size: 64\n        content_types: [\"text/\"]\n",
+		"size_limit-negative": "    - name: logging\n    - name: size_limit\n      config:\n        max_request_body: -1\n",
+		"custom-auth-no-key":  "    - name: custom-auth\n",
+		"headers-scalar":      "    - name: headers\n      config:\n        set: nope\n",
 	}
 	dir := t.TempDir()
 	var evals int64
